@@ -329,6 +329,9 @@ def crosshair(job):
     xhair.run_contracts(job, "C14", XHAIR, timeout=30)
 
 
+BATTERY_EXTRA = [("vf.props.C14:concrete_reject_after", {"v": 1.0}), ("vf.props.C14:concrete", {"v": 0.0153, "M": 46.07, "k": 3.0}), ("vf.props.C14:concrete", {"v": -1.0})]
+
+
 def jobs(tier):
     js = [("conversions", "conversions", {}), ("rejections", "rejections", {}), ("reuse", "reuse", {})]
     if tier == "thorough":
